@@ -30,9 +30,9 @@ CHECKS = [
   "Model-based: generated interleavings of every writer of the shared index file (save_hard_state, SaveMember, AddNodeAddr with 5..200-char addresses so records shrink after growing, log catalogue via appends, snapshot catalogue via compaction pointer, snapshot install = SaveSnapshots + SaveMember + SaveLogs, last-applied header) with reopens; get_initial_state / get_membership_config / get_target_addr must equal the last acknowledged values after every op and after every reopen, and the observed term never decreases.",
   "Stop points are after a write barrier (acknowledged writes have reached the OS). RaftIndexManager acknowledges before the write is issued (DESIGN F14): that window is timing dependent and not asserted. Histories start with a term >= 1 save and members_after_consensus is only ever None, as every real caller does.",
   "property-based testing (proptest) with a last-acknowledged-value model (stateful, vec(op) + interpreter)"),
- chk("C04", "E5 LD_PRELOAD journal + store-mode recovery", "fault_enumeration",
-  "Generated store-mode histories are executed by a child under an LD_PRELOAD journal of file mutations (open-create, write, pwrite, writev, ftruncate, rename, unlink, with per-descriptor offsets); for EVERY prefix of each journal the directory image is materialised and reopened with the real recovery code, and the clauses of the property are judged against what was submitted / durable before that prefix: recovery succeeds, log in order and contiguous above the newest pointer, all durable entries present, only submitted entries exposed, hard state / membership / addresses / last-applied equal to a written value, last_applied not past log + snapshot. Complete over crash prefixes per history (exhaustive per history), sampled over histories.",
-  "Crash model as stated by the property (process death, atomic ordered writes, OS survives); one operation in flight at a time; store mode mirrors the catalogue messages of compaction, the full-node compaction/install journals are not enumerated here.",
+ chk("C04", "E5 LD_PRELOAD journal + store-mode recovery; node tier: E2 full node under the journal", "fault_enumeration",
+  "Generated store-mode histories are executed by a child under an LD_PRELOAD journal of file mutations (open-create, write, pwrite, writev, ftruncate, rename, unlink, with per-descriptor offsets); for EVERY prefix of each journal the directory image is materialised and reopened with the real recovery code, and the clauses of the property are judged against what was submitted / durable before that prefix: recovery succeeds, log in order and contiguous above the newest pointer, all durable entries present, only submitted entries exposed, hard state / membership / addresses / last-applied equal to a written value, last_applied not past log + snapshot. A second tier runs generated histories (client requests of all kinds + real compactions) in a FULL node under the same journal; for every prefix a fresh full node is started on the crash image and must serve the state after j steps for some durable <= j <= submitted. Complete over crash prefixes per history (exhaustive per history), sampled over histories.",
+  "Crash model as stated by the property (process death, atomic ordered writes, OS survives); one operation in flight at a time; snapshot install journals of a follower are enumerated in store mode only. Crash points during the very first bootstrap of a node are a recorded open finding.",
   "fault injection by crash-point enumeration over proptest-generated histories (LD_PRELOAD mutation journal, every prefix recovered and judged)"),
  chk("C07", "E2 scripted full node in child processes", "exploration",
   "Three-way differential over generated committed sequences (all ClientRequest kinds, small overlapping key universes): node A commits them through a real single-node Raft (leader apply path); A's exact log entries are fed to node B with replicate_to_log + replicate_to_state_machine in generated batch splits (follower path); B restarted and A restarted give the start-up replay path. The four state dumps (config GET + history pages, listings, user-created namespaces, user rows, MCP servers and tool specs, persistent instances, membership/addresses, sequence counters) must be equal.",
